@@ -68,7 +68,9 @@ def run_times_case(prog, params):
                 want = dict(cur)
                 want[which] = Some(Adt('SystemTime', None, [tv]))
             else:
-                if cfg not in ('ovl_lower',) and o.kind != 'NotSupported':
+                if 'phys' in cfg and which == 'c' and o.kind == 'NotSupported':
+                    pass         # PhysicalFS does not implement set_creation_time: trait default, nothing may change
+                elif cfg not in ('ovl_lower',) and o.kind != 'NotSupported':
                     findings.append(make_finding('C19', key + '|setter_fails:%s' % o.kind, 'set_%s_time on an existing %s fails with %s' % (NAMES[which], kind, o.kind), sr))
                     return findings
                 want = cur
